@@ -217,6 +217,10 @@ func runKeygen(c *ctx) error {
 		n := 3 + r.Intn(3)
 		scens = append(scens, scen{hx.H(r.Bytes(n)), uint32(r.Intn(int(maxNet[n]) + 1)), "concurrent+restart", "", 0, 0, 100 + r.Intn(300)})
 	}
+	for i := 0; i < c.pick(6, 80); i++ {
+		n := 3 + r.Intn(3)
+		scens = append(scens, scen{hx.H(r.Bytes(n)), uint32(r.Intn(int(maxNet[n]) + 1)), "generators", "", 0, 0, 640})
+	}
 	for si, sc := range scens {
 		c.res.Eval()
 		c.res.Count("kind=" + sc.Kind)
@@ -252,9 +256,19 @@ func runKeygen(c *ctx) error {
 					}()
 				}
 			}
-			kg, err := keys.NewEUIKeyGenerator(ma, sc.NetID, st)
-			if err != nil {
-				return err
+			// "generators": several key generators (same prefix and network id) on one store, as when a
+			// data generator runs next to a server: their block reservations overlap in time
+			ngen := 1
+			if sc.Kind == "generators" {
+				ngen = 8
+			}
+			var kgs []*keys.KeyGenerator
+			for g := 0; g < ngen; g++ {
+				kg, err := keys.NewEUIKeyGenerator(ma, sc.NetID, st)
+				if err != nil {
+					return err
+				}
+				kgs = append(kgs, &kg)
 			}
 			cc.mu.Lock()
 			cc.armed, cc.nth, cc.tripped = crash, nth, false
@@ -272,6 +286,7 @@ func runKeygen(c *ctx) error {
 						app := (w+i)%3 == 0
 						res := make(chan struct{})
 						go func() {
+							kg := kgs[w%len(kgs)]
 							if app {
 								e, err = kg.NewAppEUI()
 							} else {
@@ -370,6 +385,6 @@ func runKeygen(c *ctx) error {
 		}
 		os.Remove(file)
 	}
-	c.res.Rule = "real KeyGenerator on a SQLite file: 8 concurrent requesters (device and application EUIs), restart on the same file, a crash (goroutine abandoned, transaction rolled back) at each of the four allocator gates at the 1st..nth reservation followed by restart, sequences pre-seeded to the last blocks of the 2^25 key space for odd and even network ids, MA-L/M/S, boundary network ids; every issued EUI is also compared with the Lean packing of its own counter bits; a class is (scenario kind, MA size, crash point)"
+	c.res.Rule = "real KeyGenerator on a SQLite file: 8 concurrent requesters (device and application EUIs) on one generator or on 8 generators sharing the store, restart on the same file, a crash (goroutine abandoned, transaction rolled back) at each of the four allocator gates at the 1st..nth reservation followed by restart, sequences pre-seeded to the last blocks of the 2^25 key space for odd and even network ids, MA-L/M/S, boundary network ids; every issued EUI is also compared with the Lean packing of its own counter bits; a class is (scenario kind, MA size, crash point)"
 	return nil
 }
